@@ -76,17 +76,22 @@ def main(argv):
             details = re.findall(r"^  detail: (.*)$", q.stdout, re.M)
             rec = {"exit": q.returncode, "caught": q.returncode == 1 and bool(vio), "classes": classes[:6], "detail": details[:2],
                    "wall_s": round(time.time() - t0, 1), "tier": tier}
-            if vio:
-                r1 = sh([os.path.join(VERIF, "check"), prop, "--replay", vio[0][1]], env=e, cwd=VERIF)
-                e2 = dict(e, MIR_EVAL_SRC="/repo")
-                r0 = sh([os.path.join(VERIF, "check"), prop, "--replay", vio[0][1]], env=e2, cwd=VERIF)
-                rec["replay_reproduces_on_patched"] = r1.returncode == 1 and "IDENTICAL" in r1.stdout
-                rec["replay_clean_on_unpatched"] = r0.returncode == 0
-                for _, rp in vio:
-                    try:
-                        os.unlink(rp)
-                    except OSError:
-                        pass
+            rec["attributable"] = []
+            for n, (_, rp) in enumerate(vio):
+                if n < 4:
+                    r1 = sh([os.path.join(VERIF, "check"), prop, "--replay", rp], env=e, cwd=VERIF)
+                    e2 = dict(e, MIR_EVAL_SRC="/repo")
+                    r0 = sh([os.path.join(VERIF, "check"), prop, "--replay", rp], env=e2, cwd=VERIF)
+                    ok = r1.returncode == 1 and "IDENTICAL" in r1.stdout and r0.returncode == 0
+                    rec["attributable"].append({"class_site": classes[n] if n < len(classes) else None,
+                                                "replay_reproduces_on_patched": r1.returncode == 1 and "IDENTICAL" in r1.stdout,
+                                                "replay_clean_on_unpatched": r0.returncode == 0})
+                try:
+                    os.unlink(rp)
+                except OSError:
+                    pass
+            # caught = some reported violation replays exactly on the patched tree AND is clean on the unpatched one
+            rec["caught"] = any(a["replay_reproduces_on_patched"] and a["replay_clean_on_unpatched"] for a in rec["attributable"])
             if q.returncode not in (0, 1):
                 rec["tail"] = q.stdout[-800:]
             out["checks"][prop] = rec
